@@ -61,7 +61,13 @@ func (m *vxMig) Migrate(ctx context.Context, _ db.KeyValueStore, _ *networks.Net
 	w.serial++
 	state := []byte{byte(m.idx), w.serial}
 	c := ctx.(vxCtx)
-	switch vx.Choice("outcome", 6) {
+	switch vx.Choice("outcome", 7) {
+	case 6:
+		// an empty but non-nil state also means "in progress, run me again" (the block-transactions
+		// and head-state migrators return []byte{} for that)
+		vx.Cover("outcome-in-progress-empty-state")
+		w.saved[m.idx] = []byte{}
+		return []byte{}, nil
 	case 0:
 		vx.Cover("outcome-complete")
 		w.completed[m.idx] = true
@@ -93,9 +99,9 @@ func VxC18RunnerOutcomes() {
 	runs := 2
 	if vx.Thorough() {
 		runs = 3
-		vx.Bound("2 mandatory migrations; every Migrate call returns one of 6 outcomes {(nil,nil),(state,nil),(state,cancelled),(nil,cancelled),(state,err),(nil,err)}; 3 process runs")
+		vx.Bound("2 mandatory migrations; every Migrate call returns one of 7 outcomes {(nil,nil),(state,nil),(empty non-nil state,nil),(state,cancelled),(nil,cancelled),(state,err),(nil,err)}; 3 process runs")
 	} else {
-		vx.Bound("2 mandatory migrations; every Migrate call returns one of 6 outcomes {(nil,nil),(state,nil),(state,cancelled),(nil,cancelled),(state,err),(nil,err)}; 2 process runs")
+		vx.Bound("2 mandatory migrations; every Migrate call returns one of 7 outcomes {(nil,nil),(state,nil),(empty non-nil state,nil),(state,cancelled),(nil,cancelled),(state,err),(nil,err)}; 2 process runs")
 	}
 	d := memory.New()
 	w := &vxWorld{}
